@@ -17,5 +17,13 @@ Definition emb_case_ok (c : Z * nat * nat * nat * list Z * list (list Z) * list 
   let '(pad, T, V, D, idx, g, gs) := c in
   let padn := if (pad <? 0)%Z then None else Some (Z.to_nat pad) in
   zll_eqb (map (fun v => map (fun d => emb_gs Z 0%Z Z.add padn T (nth2 g) (fun t => Z.to_nat (nthz idx t)) v d) (seq 0 D)) (seq 0 V)) gs.
+(* conv1d case: (P, O, cg = in-channels per group, Kk, og = out-channels per group, stride, dilation, padded input rows [channel][location],
+   backprops rows [p][o], weight grad_sample rows [o][c*Kk + k], bias grad_sample [o]) *)
+Definition conv_case_ok (c : nat * nat * nat * nat * nat * nat * nat * list (list Z) * list (list Z) * list (list Z) * list Z) : bool :=
+  let '(P, Oc, cg, Kk, og, stride, dil, xp, g, gw, gb) := c in
+  let chan := fun o ch => (o / og) * cg + ch in
+  let src := fun p k => p * stride + k * dil in
+  zll_eqb (map (fun o => flat_map (fun ch => map (fun k => conv_gs_w Z 0%Z Z.add Z.mul P chan src (nth2 g) (nth2 xp) o ch k) (seq 0 Kk)) (seq 0 cg)) (seq 0 Oc)) gw &&
+  zlist_eqb (map (fun o => conv_gs_b Z 0%Z Z.add P (nth2 g) o) (seq 0 Oc)) gb.
 Fixpoint bad_idx {A} (ok : A -> bool) (i : nat) (cs : list A) : list nat :=
   match cs with [] => [] | c :: r => (if ok c then [] else [i]) ++ bad_idx ok (S i) r end.
